@@ -2,4 +2,4 @@ From TT Require Import Base.Verdict Gpmf.Klv Run.Gpmf_run.
 Definition case := Gpmf_run.case.
 Definition mkCase := Gpmf_run.mkCase.
 (* C16: the metadata exposed by sensor elements (keys and values); structure only to align *)
-Definition check_case := check (mkProj true false true false) true.
+Definition check_case := check_c16.
